@@ -118,6 +118,47 @@ theorem inverted_loop_breaks_exclusion :
   have r5 := SReach.step r4 (SStep.cas _ 1 1#32 false (by simp [upd]) (by decide))
   refine ⟨_, r5, ?_, ?_⟩ <;> simp [SState.holds, upd, afterCas, p, spinC11]
 
+/-! ### several objects
+
+Any number of lock objects used by any number of threads (a thread may hold several): exclusion holds per
+object, and what happens on one object never changes another (so a held lock A cannot make a free lock B look
+held).  For the simulated spinlock this rests on every object owning a mutex of its own, which the translator
+reads off `p_spinlock_new` (`spinSim_own_mutex`). -/
+
+theorem spinSim_own_mutex : spinSim.freshMutex = true ∧ spinSim.freeReleases = true := by decide
+
+theorem excl_c11_objects {f : Nat → SState} (r : PSReach spinC11 f) (i : Nat) (t u : Tid)
+    (ht : (f i).holds t) (hu : (f i).holds u) : t = u :=
+  excl_c11 (psReach_proj r i) t u ht hu
+
+theorem excl_sync_objects {f : Nat → SState} (r : PSReach spinSync f) (i : Nat) (t u : Tid)
+    (ht : (f i).holds t) (hu : (f i).holds u) : t = u :=
+  excl_sync (psReach_proj r i) t u ht hu
+
+theorem excl_posix_objects {f : Nat → MState} (r : PMReach EBUSY mutexPosix f) (i : Nat) (t u : Tid)
+    (ht : (f i).holds t) (hu : (f i).holds u) : t = u :=
+  excl_posix (pmReach_proj r i) t u ht hu
+
+theorem excl_sim_objects {f : Nat → MState} (r : PMReach EBUSY (simSpinMutex spinSim mutexPosix) f) (i : Nat) (t u : Tid)
+    (ht : (f i).holds t) (hu : (f i).holds u) : t = u :=
+  excl_sim (pmReach_proj r i) t u ht hu
+
+/-- a step is a step of one object; all others keep their state -/
+theorem objects_independent_c11 {f g : Nat → SState} (st : PSStep spinC11 f g) : ∃ i, ∀ j, j ≠ i → g j = f j :=
+  psStep_frame st
+
+theorem objects_independent_posix {f g : Nat → MState} (st : PMStep EBUSY mutexPosix f g) : ∃ i, ∀ j, j ≠ i → g j = f j :=
+  pmStep_frame st
+
+/-- trylock on a free object succeeds, whoever holds whichever other objects -/
+theorem trylock_free_object_c11 {f : Nat → SState} (r : PSReach spinC11 f) (i : Nat) (t : Tid) (b : Bool) {s' : SState}
+    (free : ∀ u, ¬ (f i).holds u) (st : SStep spinC11 false (f i) (.try_ t b) s') : b = true ∧ s'.holds t :=
+  spin_try_free spinC11_good (psReach_proj r i) t b free st
+
+theorem trylock_free_object_sync {f : Nat → SState} (r : PSReach spinSync f) (i : Nat) (t : Tid) (b : Bool) {s' : SState}
+    (free : ∀ u, ¬ (f i).holds u) (st : SStep spinSync false (f i) (.try_ t b) s') : b = true ∧ s'.holds t :=
+  spin_try_free spinSync_good (psReach_proj r i) t b free st
+
 /-! ## 2. trylock -/
 
 /-- a trylock call is enabled in every state and completes in that one step (never blocks, never spins);
@@ -341,6 +382,15 @@ example : ∃ s, MReach EBUSY mutexPosix s ∧ s.holds 0 ∧ ¬ s.holds 1 ∧ s.
   have r1 := MReach.step r0 (MStep.lock mInit 0 0 (some 0) .lock rfl (by decide) (Native.lockAcquire 0))
   have r2 := MReach.step r1 (MStep.try_ _ 1 EBUSY (some 0) .trylock (by simp [upd, mInit]) (by decide) (Native.tryBusy 0 1))
   refine ⟨_, r2, ?_, ?_, rfl⟩ <;> simp [MState.holds, upd, mutexPosix, MutexFn.ret, EBUSY, mInit]
+
+/-- two objects: thread 0 holds object 0 and object 1 at once, thread 1's trylock on object 0 fails while
+    object 2 is still free -/
+example : ∃ f, PSReach spinC11 f ∧ (f 0).holds 0 ∧ (f 1).holds 0 ∧ ¬ (f 0).holds 1 ∧ (f 2).word = 0#32 := by
+  have r0 : PSReach spinC11 (fun _ => sInit) := .init
+  have r1 := PSReach.step r0 (PSStep.on _ 0 _ _ (SStep.try_ sInit 0 1#32 true rfl (by decide)))
+  have r2 := PSReach.step r1 (PSStep.on _ 1 _ _ (SStep.try_ sInit 0 1#32 true rfl (by decide)))
+  have r3 := PSReach.step r2 (PSStep.on _ 0 _ _ (SStep.try_ ⟨1#32, upd sInit.pc 0 .held⟩ 1 1#32 false (by simp [upd, sInit]) (by decide)))
+  refine ⟨_, r3, ?_, ?_, ?_, ?_⟩ <;> simp [updObj, SState.holds, upd, sInit]
 
 /-- happens-before relates something and, without release, does not relate different sections -/
 example : HB true true (.body 0 3) (.body 2 0) := cs_ordered_later true true rfl rfl 0 1 3 0
